@@ -85,6 +85,7 @@ package pool
 // available again wherever they lie.
 //@ func (*bitmapSectorAllocator).allocateAt
 //@   props C15
+//@   at call TrailingZeros64#3 assert an-allocation-continues-only-into-free-sectors-of-the-next-word: arg0 == ^sa.freeBitmap[index]
 //@   ensures allocation-at-a-free-word-succeeds: r2 == nil
 // Every byte a write reports as written lies inside the file afterwards, also
 // when the write was split into several device writes and a later one failed
